@@ -400,6 +400,10 @@ func bodySchemaAsAttrTypes(bodySchema *schema.BodySchema) map[string]cty.Type {
 }
 
 func (d *PathDecoder) collectInferredReferenceTargetsForBody(addr lang.Address, bAddrSchema *schema.BlockAddrSchema, body hcl.Body, bodySchema *schema.BodySchema, selfRefBodyRangePtr *hcl.Range, selfRefAddr lang.Address) reference.Targets {
+	if bodySchema == nil {
+		return reference.Targets{}
+	}
+
 	var (
 		refs             = make(reference.Targets, 0)
 		collectLocalAddr = false
